@@ -1,0 +1,40 @@
+//go:build verif
+
+package scion
+
+import "github.com/scionproto/scion/pkg/slayers"
+
+// Contracts for the verification machinery in /verif (not compiled without the tag "verif").
+
+// The option comes from a decoded end-to-end extension header of a received packet: its data has any length.
+// Only a 28-byte option can be a time-service authenticator; anything else must never be reported with the
+// time-service SPI (client or server) and the AES-CMAC algorithm, and must not crash the receive loop.
+//@ pred spiOf(d) = (uint32(d[3]) | uint32(d[2])<<8 | uint32(d[1])<<16 | uint32(d[0])<<24)
+
+//@ func PacketAuthOptMetadata
+//@   requires authOpt != nil
+//@   ensures meta: len(authOpt.OptData) == 28 ==> spi == spiOf(authOpt.OptData) && algo == authOpt.OptData[4]
+//@   ensures malformed: len(authOpt.OptData) != 28 ==> !(algo == 0 && (spi == PacketAuthSPIClient || spi == PacketAuthSPIServer))
+
+// Called only for options that PacketAuthOptMetadata recognised (28 bytes).
+//@ func PacketAuthOptMAC
+//@   requires authOpt != nil
+//@   panics when len(authOpt.OptData) != 28
+//@   ensures mac: len(result) == 16 && regionof(result) == regionof(authOpt.OptData) && offsetof(result) == offsetof(authOpt.OptData)+12
+
+//@ func PreparePacketAuthOpt
+//@   requires authOpt != nil && len(authOpt.OptData) >= 28
+//@   modifies *authOpt, authOpt.OptData[:]
+//@   ensures meta: sameslice(authOpt.OptData, old(authOpt.OptData)) && spiOf(authOpt.OptData) == spi && authOpt.OptData[4] == algo && authOpt.OptType == slayers.OptTypeAuthenticator
+//@   ensures zeromac: forall(i, 5, 28, authOpt.OptData[i] == 0)
+
+// Round trip: what PreparePacketAuthOpt writes is what PacketAuthOptMetadata reads.
+//@ func verifAuthOptRoundTrip
+//@   requires authOpt != nil && len(authOpt.OptData) == 28
+//@   modifies *authOpt, authOpt.OptData[:]
+//@   ensures roundtrip: s == spi && a == algo
+
+func verifAuthOptRoundTrip(authOpt *slayers.EndToEndOption, spi uint32, algo uint8) (s uint32, a uint8) {
+	PreparePacketAuthOpt(authOpt, spi, algo)
+	return PacketAuthOptMetadata(authOpt)
+}
